@@ -42,6 +42,8 @@ def run_child(plan, workdir, keeplog=False, timeout=90, gomaxprocs="1"):
     """Runs one incarnation chain of a plan. Returns the (last) result dict."""
     os.makedirs(workdir, exist_ok=True)
     plan = dict(plan)
+    for k in ("state_in", "state_out", "tape_pos", "incarnation"):
+        plan.pop(k, None)
     inc = 0
     state = None
     total_stats = {}
@@ -80,8 +82,9 @@ def run_child(plan, workdir, keeplog=False, timeout=90, gomaxprocs="1"):
             # the simulated process was killed; start the next incarnation from the saved world
             state = plan["state_out"]
             nplan = res.get("plan") or plan
+            was_replay = bool(plan.get("replay"))
             plan = dict(nplan)
-            plan["replay"] = True
+            plan["replay"] = was_replay
             plan["tape_pos"] = res.get("tape_pos", 0)
             inc += 1
             if inc > 6:
